@@ -217,6 +217,16 @@ def r05_7(ctx, rep):
     per_model_state(ctx, rep, "R05.7")
 
 
+@SPEC.rule(
+    "R05.8",
+    "the compiler tool treats a sequence of requests as that many independent requests: inside its loops over the requested models "
+    "nothing depends on the running error counter (a failing model does not switch off the ones after it)",
+)
+def r05_8(ctx, rep):
+    from .c26 import every_model_attempted
+    every_model_attempted(ctx, rep, "R05.8")
+
+
 # -- seeded variants ---------------------------------------------------------
 from ._mut import replace_in_func  # noqa: E402
 
